@@ -179,6 +179,24 @@ def run(c):
                      "containing a lapse or supersession (advance past an expiry, re-registration of a key with another identity, identity moved "
                      "to another key, second client on an occupied address) before its last call; traces: every recorded run is non-trivial")
 
+    if c.replay:
+        rp = json.load(open(c.replay))["replay"]
+        if "h" not in rp:
+            c.fail_tool("this replay file does not carry a history (trace / gateway-loop findings are re-run by the normal check)")
+        inp, outp = os.path.join(c.work, "one.ndjson"), os.path.join(c.work, "one_out.ndjson")
+        write_ndjson(inp, [{"ev": "meta", "ids": rp.get("ids", ["i1", "i2", "i3"]), "addrs": rp.get("addrs", ["a1", "a2"])}, {"h": rp["h"]}])
+        rc, so = c.sh([binp, "replay", inp, outp], timeout=600)
+        if rc != 0:
+            c.fail_tool("replay harness failed rc=%s" % rc)
+        st = {"steps": 0, "fwd": 0, "enc": 0, "hs": 0, "mismatch": 0}
+        real = read_ndjson(outp)[0]["steps"]
+        for si, (spec, rl) in enumerate(zip(rp["h"], real)):
+            c.log("step %d %s: spec %s | real %s | auth %s" % (si, hist_key(rp["h"][si:si + 1]), json.dumps(spec["ev"]), json.dumps(rl["ev"]), json.dumps((rl.get("snap") or {}).get("auth"))))
+            judge_step(c, hist_key(rp["h"][:si + 1]), spec, rl, st, {"h": rp["h"], "step": si, "real": real})
+        c.cov["replayed"] = 1
+        c.cov["evaluations"] = st["steps"]
+        return
+
     # ---- 1. exhaustive -----------------------------------------------------------------------------
     r = c.tlc(SD, "MC_SnapTunnel", cfg=mc(c, "mc_full.cfg") if thorough else mc(c, "mc_full.cfg", maxt=3, lifes="{1, 2}"), timeout=3000,
               coverage=False)
@@ -257,7 +275,10 @@ def run(c):
                 x["replies"] = [rp for rp in x["replies"] if rp.get("len", 1) > 0]
         steps = {x["step"]: x for x in g["log"]}
         c.cov["gateway_loop"] = g["log"]
-        if g["authorised_phase_done_at_s"] > g["life"] - 5:
+        for name in ("register", "reregister", "supersede"):
+            if steps.get(name, {}).get("status") != 200:
+                c.drift("gateway loop: control-plane registration '%s' answered %s" % (name, steps.get(name, {}).get("status")))
+        if g["authorised_phase_done_at_s"] > g["life"] - 6:
             c.drift("gateway loop: machine too slow (authorised phase took %.1fs), positive expectations not judged" % g["authorised_phase_done_at_s"])
         for phase, what in (("lapsed", "lapse"), ("superseded", "supersession")):
             x = steps.get("%s:good" % phase)
@@ -268,7 +289,7 @@ def run(c):
             y = steps.get("%s:outbound" % phase)
             if y and y["delivered"]:
                 c.violation("gateway:flow-after-%s:out" % what, "real gateway loop encrypted an outbound packet towards the client after the %s" % what, g)
-        if g["authorised_phase_done_at_s"] <= g["life"] - 5:
+        if g["authorised_phase_done_at_s"] <= g["life"] - 6:
             for name in ("authorised:good", "reregistered:good"):
                 x = steps.get(name)
                 if not x or x["dispatched"] != 1 or not x["intact"]:
